@@ -7,6 +7,8 @@ package main
 import (
 	"fmt"
 	"go/ast"
+	"go/token"
+	"go/types"
 	"sort"
 	"strings"
 
@@ -16,8 +18,22 @@ import (
 const maxEvents = 10
 
 type pstate struct {
+	n      [maxEvents]uint8
+	flags  uint8
+	ret    int8      // result of the last inlined callee: 0 unknown, 1 true, 2 false
+	retVar token.Pos // variable the result was assigned to (0: it is the value of the call itself)
+}
+
+// summary is one way an inlined callee can end: its events and its constant boolean result.
+type summary struct {
 	n     [maxEvents]uint8
 	flags uint8
+	ret   int8
+}
+
+type pathOpts struct {
+	info   *types.Info
+	inline func(n ast.Node) ([]summary, *ast.CallExpr) // summaries of a library callee called in node n
 }
 
 type pathResult struct {
@@ -71,6 +87,12 @@ func (p *pathResult) witness(b *cfg.Block, entry pstate) []string {
 // runPaths explores the product. events(b, i) returns the events raised by node i of block b;
 // edgeFlag(b, succ) returns flag bits set when that edge is taken.
 func runPaths(g *cfg.CFG, names []string, events func(b *cfg.Block, i int, n ast.Node) []int, edgeFlag func(b *cfg.Block, succ int) uint8) *pathResult {
+	return runPathsOpt(g, names, events, edgeFlag, nil)
+}
+
+// runPathsOpt additionally inlines the exit summaries of library callees (opts.inline) and
+// correlates a callee's constant boolean result with the branch that tests it.
+func runPathsOpt(g *cfg.CFG, names []string, events func(b *cfg.Block, i int, n ast.Node) []int, edgeFlag func(b *cfg.Block, succ int) uint8, opts *pathOpts) *pathResult {
 	res := &pathResult{names: names, exits: map[*cfg.Block][]pstate{}, pred: map[pkey]pkey{}, g: g}
 	if len(g.Blocks) == 0 {
 		return res
@@ -83,43 +105,119 @@ func runPaths(g *cfg.CFG, names []string, events func(b *cfg.Block, i int, n ast
 	}
 	work := []item{{0, pstate{}}}
 	in[0] = map[pstate]bool{{}: true}
+	sat := func(a, b uint8) uint8 {
+		if a+b >= 2 {
+			return 2
+		}
+		return a + b
+	}
 	for len(work) > 0 {
 		it := work[0]
 		work = work[1:]
 		b := g.Blocks[it.b]
-		s := it.s
+		states := []pstate{it.s}
 		for i, n := range b.Nodes {
-			for _, ev := range events(b, i, n) {
-				if s.n[ev] < 2 {
-					s.n[ev]++
+			evs := events(b, i, n)
+			var sums []summary
+			var call *ast.CallExpr
+			if opts != nil && opts.inline != nil {
+				sums, call = opts.inline(n)
+				if len(sums) > 0 {
+					evs = nil // the callee's summaries stand for the whole call statement
 				}
 			}
-		}
-		if len(b.Succs) == 0 {
-			dup := false
-			for _, x := range res.exits[b] {
-				if x == s {
-					dup = true
+			var next []pstate
+			for _, s := range states {
+				for _, ev := range evs {
+					if s.n[ev] < 2 {
+						s.n[ev]++
+					}
+				}
+				if len(sums) == 0 {
+					next = append(next, s)
+					continue
+				}
+				for _, sm := range sums {
+					ns := s
+					for k := range ns.n {
+						ns.n[k] = sat(ns.n[k], sm.n[k])
+					}
+					ns.flags |= sm.flags
+					ns.ret, ns.retVar = sm.ret, 0
+					if as, ok := n.(*ast.AssignStmt); ok && len(as.Lhs) >= 1 && len(as.Rhs) == 1 && ast.Unparen(as.Rhs[0]) == ast.Expr(call) {
+						if id, ok := as.Lhs[0].(*ast.Ident); ok && opts.info != nil {
+							if v := opts.info.ObjectOf(id); v != nil {
+								ns.retVar = v.Pos()
+							}
+						}
+					}
+					next = append(next, ns)
 				}
 			}
-			if !dup {
-				res.exits[b] = append(res.exits[b], s)
-				entryOf[pkey{b.Index, s}] = it.s
-			}
-			continue
+			states = next
 		}
-		for si, succ := range b.Succs {
-			ns := s
-			if edgeFlag != nil {
-				ns.flags |= edgeFlag(b, si)
+		for _, s := range states {
+			if len(b.Succs) == 0 {
+				s.ret, s.retVar = 0, 0
+				dup := false
+				for _, x := range res.exits[b] {
+					if x == s {
+						dup = true
+					}
+				}
+				if !dup {
+					res.exits[b] = append(res.exits[b], s)
+					entryOf[pkey{b.Index, s}] = it.s
+				}
+				continue
 			}
-			if in[succ.Index] == nil {
-				in[succ.Index] = map[pstate]bool{}
+			// does the branch condition test the inlined callee's result?
+			condVal := int8(0) // 1: edge 0 needs ret==true; 2: edge 0 needs ret==false
+			if s.ret != 0 && len(b.Succs) == 2 && len(b.Nodes) > 0 && opts != nil && opts.info != nil {
+				if cond, ok := b.Nodes[len(b.Nodes)-1].(ast.Expr); ok {
+					neg := false
+					e := ast.Unparen(cond)
+					if ue, ok := e.(*ast.UnaryExpr); ok && ue.Op == token.NOT {
+						neg, e = true, ast.Unparen(ue.X)
+					}
+					match := false
+					if s.retVar == 0 {
+						_, match = e.(*ast.CallExpr)
+					} else if id, ok := e.(*ast.Ident); ok {
+						if v := opts.info.ObjectOf(id); v != nil && v.Pos() == s.retVar {
+							match = true
+						}
+					}
+					if match {
+						condVal = 1
+						if neg {
+							condVal = 2
+						}
+					}
+				}
 			}
-			if !in[succ.Index][ns] {
-				in[succ.Index][ns] = true
-				res.pred[pkey{succ.Index, ns}] = pkey{b.Index, it.s}
-				work = append(work, item{succ.Index, ns})
+			for si, succ := range b.Succs {
+				if condVal != 0 {
+					wantTrue := (condVal == 1) == (si == 0)
+					if (wantTrue && s.ret == 2) || (!wantTrue && s.ret == 1) {
+						continue // the callee returned the other constant on this path
+					}
+				}
+				ns := s
+				if len(b.Succs) == 2 {
+					ns.ret, ns.retVar = 0, 0
+				}
+				if edgeFlag != nil {
+					ns.flags |= edgeFlag(b, si)
+				}
+				if in[succ.Index] == nil {
+					in[succ.Index] = map[pstate]bool{}
+				}
+				if !in[succ.Index][ns] {
+					in[succ.Index][ns] = true
+					res.pred[pkey{succ.Index, ns}] = pkey{b.Index, it.s}
+					work = append(work, item{succ.Index, ns})
+				}
 			}
 		}
 	}
@@ -128,4 +226,22 @@ func runPaths(g *cfg.CFG, names []string, events func(b *cfg.Block, i int, n ast
 	}
 	res.entryOf = entryOf
 	return res
+}
+
+// constBoolReturn: the block ends in `return true` / `return false` (1 / 2), else 0.
+func constBoolReturn(info *types.Info, b *cfg.Block) int8 {
+	if len(b.Nodes) == 0 {
+		return 0
+	}
+	rs, ok := b.Nodes[len(b.Nodes)-1].(*ast.ReturnStmt)
+	if !ok || len(rs.Results) != 1 {
+		return 0
+	}
+	if isConstBool(info, rs.Results[0], true) {
+		return 1
+	}
+	if isConstBool(info, rs.Results[0], false) {
+		return 2
+	}
+	return 0
 }
